@@ -75,3 +75,55 @@ Proof.
           rewrite !fold4_flat by step4; gnorm; cbn [app];
           id_filters; reflexivity ].
 Qed.
+
+(* ---- sweepA: the regenerated loop and the model's fold run in lock-step ---- *)
+Definition swR (s : fmap * list Z * list (list Z)) (t : sweep) : Prop :=
+  s = (sw_front t, sw_stairs t, sw_fstairs t) /\ sw_fstairs t <> [].
+
+Ltac bool_eq := match goal with |- ?a = ?b => destruct a eqn:?, b eqn:?; zb2p; try reflexivity; try discriminate; lia end.
+
+(* the inner search loop (first stair with the same rank: delete it) and the two inserts *)
+Ltac swA_branch F fit :=
+  rewrite (for_brk_find (fun f => fget F f =? fget F fit) (fun i s => (py_del (fst s) i, py_del (snd s) i)))
+    by (intros ? ? [? ?]; gnorm; ifs_solve);
+  destruct (find_index _ _); gnorm; (split; [|apply insert_at_nonnil]);
+  rewrite ?py_del_at, ?py_insert_at by lia; rewrite ?Z2Nat.inj_add, ?Nat2Z.id by lia; reflexivity.
+
+Ltac swA_step :=
+  let B := fresh "B" in let NE2 := fresh "NE2" in let C := fresh "C" in
+  intros [[fr st] fst_] t fit [E NE]; inversion E; subst; clear E; destruct t as [st fst_ fr];
+  cbn [sw_front sw_stairs sw_fstairs] in *; unfold sweepA_step, sweep_rank; cbn [sw_front sw_stairs sw_fstairs]; gnorm;
+  pose proof (bisect_right_bounds st (- item fit 1)) as B;
+  set (idx := bisect_right st (- item fit 1)) in *;
+  rewrite ?(slice_to_firstn fst_ idx), ?(slice_from_skipn fst_ idx) by lia;
+  assert (NE2 : 0 < idx -> firstn (Z.to_nat idx) fst_ <> [])
+    by (intro; destruct fst_; [congruence|]; destruct (Z.to_nat idx) eqn:?; [lia|discriminate]);
+  (* the guard of the rank update, in whatever equivalent form the source writes it *)
+  repeat match goal with
+  | |- context[if ?c then kset fr ?b ?v else fr] =>
+      lazymatch c with
+      | (0 <? idx) && (idx <=? zlen st) => fail
+      | _ => replace c with ((0 <? idx) && (idx <=? zlen st)) by bool_eq
+      end
+  end;
+  destruct ((0 <? idx) && (idx <=? zlen st)) eqn:C;
+  [ zb2p; rewrite (py_max_default _ _ [] fit) by (apply NE2; lia); unfold fbump;
+    match goal with |- context[kset ?a ?b ?c] => let F := fresh "F" in set (F := kset a b c); swA_branch F fit end
+  | swA_branch fr fit ].
+
+Lemma gen_sweepA_eq fs front : gen_sweepA fs front = sweepA fs front.
+Proof.
+  first [ reflexivity
+        | unfold gen_sweepA, sweepA; gnorm; destruct fs as [|f0 r]; [reflexivity|];
+          rewrite slice_from_1_cons, !py_nth_0;
+          match goal with |- context[fold_left ?f r (?a, ?b, ?c)] =>
+            match goal with |- _ = sw_front (fold_left ?g r ?t) =>
+              assert (H : swR (fold_left f r (a, b, c)) (fold_left g r t))
+                by (apply fold_left_sim; [swA_step|split; [reflexivity|discriminate]]);
+              destruct (fold_left f r (a, b, c)) as [[? ?] ?]; destruct H as [E _]; inversion E; reflexivity
+            end
+          end ].
+Qed.
+
+Lemma gen_sweepB_eq best worst front : gen_sweepB best worst front = sweepB best worst front.
+Proof. reflexivity. Qed.   (* sweepB is outside the translator's grammar (while / iterator): placeholder *)
